@@ -4,7 +4,33 @@ from . import chan_common as cc
 PREFIXES = ("C06-", "C11-valid-session-refused", "C11-mismatched-session-accepted")
 
 
+def killed_and_restarted(ctx):
+    """every finalized file is interpretable on its own - also the ones that appear when a recorder is killed and a new
+    recorder process is started on the same tree (DrfFs: a tmp. file of a dead process is never published)"""
+    from ..core import quiet_stderr
+    from ..drivers import fs_drv
+    from . import fs_common as fc
+
+    env, drf = fc.env(ctx)
+    rng = ctx.rng
+    scen = []
+    with quiet_stderr():
+        for i in range(ctx.pick(3, 25)):
+            job, ops = fs_drv.make_job(rng, ctx.seed * 613 + i)
+            base = fs_drv.stepped(env, drf, job, ops, "k-base%d" % i, rng, every=1000)
+            opl = [e for e in base["events"] if e["ev"] == "op" and e["cls"] == "tmp" and e["op"] in ("pwrite", "write", "close", "rename")]
+            ks = sorted({e["n"] for e in rng.sample(opl, min(len(opl), ctx.pick(3, 6)))})
+            for kn, k in enumerate(ks):
+                scen.append(fs_drv.stepped(env, drf, job, ops, "kill%d@%d+restart" % (i, k), rng, kill_at=k, every=1000,
+                                           restart=["same", "go-on", "same"][kn % 3]))
+    ctx.extra["kill_and_restart_runs"] = len(scen)
+    ctx.validate("DrfFsTrace", "DrfFsTrace.cfg", scen, label="recorder killed and restarted",
+                 relevant=fc.relevance(("pub-published-a-tmp-file-of-a-dead-session", "pub-final-file-unreadable",
+                                        "pub-final-file-holds-values-never-written", "pub-wrote-to-a-tmp-file-of-a-dead-session")))
+
+
 def run(ctx):
+    killed_and_restarted(ctx)
     cc.run(ctx, PREFIXES, nsim=ctx.pick(40, 500), nrand=ctx.pick(60, 900), sim_depth=ctx.pick(13, 17),
            what="every finalized rf@*.h5 of every history is opened with raw h5py: index rows, dataset length, the 14 stored "
                 "attributes (as strings), uuid, sequence number; TLC judges them against the window capacity, the written samples "
